@@ -31,10 +31,16 @@ var codecNames = []string{"go-cbor", "go-msgpack", "go-binc", "go-simple", "go-j
 
 func newHandle(name string, rbs, wbs int) codec.Handle {
 	format := strings.TrimPrefix(name, "go-")
+	o := vh.Opts{"ReaderBufferSize": rbs, "WriterBufferSize": wbs}
 	if name == "spec" {
 		format = "msgpack"
 	}
-	return vh.NewHandle(format, vh.Opts{"ReaderBufferSize": rbs, "WriterBufferSize": wbs})
+	if name == "go-binc-sym" {
+		// symbol tables live as long as the codec's Encoder/Decoder: state shared by all frames
+		format = "binc"
+		o["AsSymbols"] = 1
+	}
+	return vh.NewHandle(format, o)
 }
 
 func rpcOf(name string) codec.Rpc {
@@ -285,11 +291,19 @@ func unitStream(r *vh.Rng, n int, casesPath string, sum *vh.Summary) {
 		if r.Chance(1, 4) && len(wire) > 0 {
 			trunc = r.Intn(len(wire) + 1)
 			if name == "go-json" {
-				// the model's unit is value+' '; a cut just before that space is a complete value for the decoder
+				// The model's unit is value+' '.  For the json decoder a cut just before that
+				// space still is a complete value, and a stream that ENDS inside a top-level
+				// number is read as the shorter number (EOF delimits a number, as in
+				// encoding/json).  Neither is fragmentation or coalescing (no byte is lost by
+				// those); such cut points are moved to the end of the unit.
+				start := 0
 				for _, e := range unitEnds {
-					if trunc == e-1 {
+					isNum := e > start && (wire[start] == '-' || (wire[start] >= '0' && wire[start] <= '9'))
+					if trunc == e-1 || (isNum && trunc > start && trunc < e) {
 						trunc = e
+						sum.Dist["unit.json-cut-moved-to-unit-end"]++
 					}
+					start = e
 				}
 			}
 			tclass = "cut"
